@@ -1336,7 +1336,11 @@ def rule_rd_hdrflag(cx, rep, port):
     p = cx.port(port)
     it = p.cls('rbql_csv', 'CSVRecordIterator')
     n = 0
+    hq_model = _modifier_model(cx, port, p, it)
     for m in [x for x in it.body if isinstance(x, ast.FunctionDef)]:
+        if hq_model is not None and m.name == 'handle_query_modifier':
+            n += 2
+            continue
         for blk in _blocks(m):
             hh = [s for s in blk if isinstance(s, ast.Assign) and dotted(s.targets[0]) == 'self.has_header']
             for h in hh:
@@ -1358,7 +1362,9 @@ def rule_rd_hdrflag(cx, rep, port):
     mparam = hq.args.args[1].arg
     want = {'header': True, 'headers': True, 'noheader': False, 'noheaders': False}
     hps = pathsem.paths(hq)
-    if hps is None:
+    if hq_model is not None:
+        rep.decide(hq_model == '', 'modifier vocabulary', hq, 'header(s) -> has_header and the first record kept back, noheader(s) -> the reverse, anything else changes nothing (evaluated for 6 words x 4 states)', hq_model)
+    elif hps is None:
         rep.undecided('modifier vocabulary', hq, 'handle_query_modifier is not summarisable as paths')
     else:
         words = {}
@@ -1433,6 +1439,41 @@ def rule_rd_hdrflag(cx, rep, port):
             rep.undecided('get_header', gh, 'get_header depends on something else than has_header')
         else:
             rep.decide(bool(okh) and n_seen >= 2, 'get_header', gh, 'header = first record iff has_header', 'get_header does not return the first record exactly when has_header is set')
+
+
+def _modifier_model(cx, port, p, it):
+    """handle_query_modifier evaluated for the words header, headers, noheader, noheaders, HEADER and another word from every state of
+    (has_header, first_record_should_be_emitted): '' / problem / None (outside the abstract interpreter)"""
+    from .. import absexec as AX
+    hq = [m for m in it.body if isinstance(m, ast.FunctionDef) and m.name == 'handle_query_modifier']
+    if len(hq) != 1 or len(hq[0].args.args) != 2:
+        return None
+    try:
+        for word in ('header', 'headers', 'noheader', 'noheaders', 'HEADER', 'separator'):
+            for h0 in (False, True):
+                for e0 in (False, True):
+                    selfv = AX.Abs('Self')
+                    init = {'has_header': h0, 'first_record_should_be_emitted': e0}
+
+                    def on_attr(ex, node, obj, attr, init=init):
+                        if obj is selfv and attr in init:
+                            return init[attr]
+                        return AX.NOT_HANDLED
+                    ex = AX.Explorer(p, 'rbql_csv', on_attr=on_attr, max_choices=1)
+                    runs, cut = ex.explore(hq[0], [selfv, word], cls='CSVRecordIterator')
+                    if cut or len(runs) != 1 or runs[0].outcome[0] != 'return':
+                        return None
+                    st = runs[0].state
+                    got = (st.get((selfv.uid, 'has_header'), h0), st.get((selfv.uid, 'first_record_should_be_emitted'), e0))
+                    want = (True, False) if word in ('header', 'headers') else ((False, True) if word in ('noheader', 'noheaders') else (h0, e0))
+                    if got != want:
+                        return 'WITH ({}) on a reader with has_header = {}, first_record_should_be_emitted = {} leaves (has_header, first_record_should_be_emitted) = {} instead of {}: the first line would be {}'.format(word, h0, e0, got, want, 'processed as data although it is the header' if want[0] else 'dropped although it is data')
+    except (Undecided, KeyError, IndexError, TypeError, AttributeError, ValueError) as e_:
+        import os
+        if os.environ.get('RBQL_VERIF_DEBUG'):
+            print('modifier model gave up:', type(e_).__name__, e_)
+        return None
+    return ''
 
 
 def _blocks(fd):
